@@ -514,7 +514,9 @@ def check_params_and_timers(obs):
     for (clause, discr, detail) in check_grammar(obs):
         if clause == 'mru':
             out.append(('mru', discr, detail))
-    if not both_init or plan['net'].get('tcp_capacity', 0) < (1 << 29):
+    # bounded socket buffers: only the plans that say so (C14, stall runs) are judged on timing, and only on the keepalive cadence
+    bounded = plan['net'].get('tcp_capacity', 0) < (1 << 29)
+    if not both_init or (bounded and not plan.get('bounded')):
         return out
     keepalive = min(cfg['A']['keepalive_time'], cfg['P']['keepalive_time'])
     end_time = har.end_time if har.end_time is not None else obs.wld.now
@@ -537,18 +539,22 @@ def check_params_and_timers(obs):
         if closing is not None:
             t_end = closing
         # keepalive spacing of own output while established
-        sends = [msg['stamp'][1] for msg in obs.wire[side] if t_est <= msg['stamp'][1] <= t_end]
+        # every write to the socket counts (under back-pressure a large message takes a while, its decode stamp is its last octet)
+        sends = sorted([msg['stamp'][1] for msg in obs.wire[side] if t_est <= msg['stamp'][1] <= t_end]
+                       + [evt[1] for evt in obs.wld.hist if evt[3] == 'tcp-send' and evt[2] == side and t_est <= evt[1] <= t_end])
         if keepalive > 0:
             marks = [t_est] + sends + [t_end]
             for (prev, nxt) in zip(marks, marks[1:]):
                 # only a stall (of the link or of a process) that overlaps the silent interval can have stretched it
                 gap_tol = 500000 + sum(flt[6] for flt in obs.faults if flt[4] in ('stall', 'slow') and flt[1] <= nxt and flt[1] + flt[6] >= prev)
                 if nxt - prev > keepalive * 10**6 + gap_tol:
-                    out.append(('keepalive', 'gap', '%s wrote nothing for %.3f s although keepalive is %d s' % (
-                        side, (nxt - prev) / 1e6, keepalive)))
+                    out.append(('keepalive', 'gap', '%s wrote nothing for %.3f s (from t=%.3f) although keepalive is %d s' % (
+                        side, (nxt - prev) / 1e6, prev / 1e6, keepalive)))
                     break
         # idle timeout
         idle = cfg[side]['idle_time']
+        if bounded:
+            continue
         if idle > 0:
             pipe_in = 'b2a' if side == 'A' else 'a2b'
             pipe_out = 'a2b' if side == 'A' else 'b2a'
